@@ -190,7 +190,12 @@ def collect_numpy():
             kind = np_kind(dt)
             canon = dt.name
             if mod == "ml_dtypes":
-                family = {"float": "mlfloat", "int": "mlint", "uint": "mlint"}.get(kind, "ml")
+                # a low-precision float is "new" when no exported precision class is named after it (docs/api/array.md lists
+                # BFloat16; jaxtyping/__init__ exports the five Float8* classes): those are the F11:newfloat input class
+                if kind == "float":
+                    family = "mlfloat" if canon in PRECISION.values() else "newfloat"
+                else:
+                    family = {"int": "mlint", "uint": "mlint"}.get(kind, "ml")
             elif kind in ("bool", "uint", "int", "float", "complex"):
                 if canon == tname.rstrip("_"):
                     family = "std"
@@ -200,10 +205,8 @@ def collect_numpy():
                     family = "extprec"  # longdouble / clongdouble (float128 / complex256)
             else:
                 family = "nonnumeric"
-            if kind == "other" or kind is None:
-                canon_name = None if dt.kind in "USVMmO" and kind != "bool" else canon
-            else:
-                canon_name = canon
+            # flexible / datetime / object / void dtypes have no library-independent name: canon = None
+            canon_name = canon if kind in ("bool", "uint", "int", "float", "complex") else None
             out.append(DT(ident, canon_name, kind, family, npdt=dt, np_src=src))
     for n, dt in STRUCTS.items():
         out.append(DT(n, None, "other", "struct", npdt=dt, np_src=f"np.dtype({dt.descr!r})"))
@@ -304,14 +307,34 @@ class TorchStyleDtype:
 
 
 class TFStyleDtype:
-    """like tf.DType: has .as_numpy_dtype (a numpy scalar type) and .name, no .type"""
+    """mimics the public surface of tf.DType without importing TensorFlow: .as_numpy_dtype (a numpy scalar type, or a one-field
+    structured np.dtype instance for the quantised dtypes), .name, the is_* predicates, repr 'tf.float32'; no .type"""
 
-    def __init__(self, name, nptype):
+    def __init__(self, name, as_numpy_dtype, kind=None):
         self.name = name
-        self.as_numpy_dtype = nptype
+        self.as_numpy_dtype = as_numpy_dtype
+        self.is_quantized = name in ("qint8", "quint8", "qint16", "quint16", "qint32")
+        self.is_bool = kind == "bool"
+        self.is_floating = kind == "float"
+        self.is_complex = kind == "complex"
+        self.is_integer = kind in ("int", "uint") and not self.is_quantized
+        self.is_unsigned = kind == "uint" or name.startswith("qu")
+        self.is_numeric = kind in ("int", "uint", "float", "complex") or self.is_quantized
+        self.base_dtype = self
+        self.real_dtype = self
+        self.is_numpy_compatible = True
 
     def __repr__(self):
         return "tf." + self.name
+
+    def __str__(self):
+        return f"<dtype: {self.name!r}>"
+
+    def __eq__(self, other):
+        return isinstance(other, TFStyleDtype) and other.name == self.name
+
+    def __hash__(self):
+        return hash(self.name)
 
 
 TORCH_NAMES = {"float16", "float32", "float64", "bfloat16", "complex64", "complex128", "uint8", "uint16", "uint32", "uint64",
@@ -322,7 +345,7 @@ TFSTYLE_NAMES = {"float16", "float32", "float64", "bfloat16", "complex64", "comp
 
 DUCK_SRC = "class Duck:\n    def __init__(self, dtype): self.dtype = dtype; self.shape = (2,)\n"
 TORCH_SRC = DUCK_SRC + "class TorchDT:\n    def __init__(s, n): s.n = n\n    def __repr__(s): return 'torch.' + s.n\n"
-TFS_SRC = DUCK_SRC + "class TFDT:\n    def __init__(s, t): s.as_numpy_dtype = t\n"
+TFS_SRC = DUCK_SRC + "class TFDT:\n    def __init__(s, t, name=None): s.as_numpy_dtype = t; s.name = name or t.__name__\n"
 
 tf = None
 if THOROUGH:
@@ -400,7 +423,7 @@ def backends(d):
             if d.canon in TORCH_NAMES:
                 yield "duck-torchstyle", Duck, "Duck", Duck(TorchStyleDtype(d.canon)), TORCH_SRC + f"x = Duck(TorchDT({d.canon!r}))\n"
             if d.canon in TFSTYLE_NAMES:
-                yield ("duck-tfstyle", Duck, "Duck", Duck(TFStyleDtype(d.canon, dt.type)),
+                yield ("duck-tfstyle", Duck, "Duck", Duck(TFStyleDtype(d.canon, dt.type, d.kind)),
                        "import numpy as np, ml_dtypes\n" + TFS_SRC + f"x = Duck(TFDT({d.np_src}.type))\n")
     elif d.key_impl is not None:
         k = jax.random.key(0, impl=d.key_impl)
@@ -414,7 +437,7 @@ def backends(d):
             yield "jax-vmap-tracer", jax.Array, "jax.Array", ("vmap", ks), pre + "x = jax.random.split(x, 3)  # under jax.vmap\n"
     if d.quant_descr is not None:
         yield ("duck-tfstyle", Duck, "Duck", Duck(TFStyleDtype(d.canon, np.dtype(d.quant_descr))),
-               "import numpy as np\n" + TFS_SRC + f"x = Duck(TFDT(np.dtype({d.quant_descr!r})))  # what tf.{d.canon}.as_numpy_dtype is\n")
+               "import numpy as np\n" + TFS_SRC + f"x = Duck(TFDT(np.dtype({d.quant_descr!r}), {d.canon!r}))  # what tf.{d.canon}.as_numpy_dtype is\n")
     if d.tfdt is not None:
         t = d.tfdt
         pre0 = "import tensorflow as tf, typing\n"
@@ -494,7 +517,7 @@ def verdicts_for(value, arr_t):
     return run(value)
 
 
-FAMILY_PREFIX = {"alias": "F11:longlong", "mlfloat": "F11:newfloat", "tfquant": "F11:tfquant", "extprec": "C03:longdouble",
+FAMILY_PREFIX = {"alias": "F11:longlong", "newfloat": "F11:newfloat", "tfquant": "F11:tfquant", "extprec": "C03:longdouble",
                  "tfopaque": "C03:tfopaque"}
 found = {}  # case -> failure dict (deduplicated across backends)
 n_backend_cases = 0
